@@ -13,6 +13,7 @@ import NPModel.Refine.SortNested
 import NPModel.Refine.FieldRows
 import NPModel.Refine.DropnaNested
 import NPModel.Refine.SamplesFrame
+import NPModel.Refine.ViewTrips2
 namespace NP.C04
 open NP
 variable {α : Type}
@@ -184,5 +185,15 @@ theorem field_edits_layout_independent {c₁ c₂ c₁' c₂' : PCol α} {f ty :
     have ⟨r₁, t₁⟩ := fillFieldLists_rows h₁ e₁
     have ⟨r₂, t₂⟩ := fillFieldLists_rows h₂ e₂
     exact ⟨by rw [r₁, r₂, hr], by rw [t₁, t₂, ht]⟩
+
+/-- the list view round trip does not see the layout: two series on `Clean` storage with the same declared
+    fields and the same rows — in ANY two layouts — give, through `to_lists` then `pack_lists`, the same rows -/
+theorem list_view_round_trip_layout_independent (s₁ s₂ : NSeries α) (h₁ : s₁.col.Clean) (h₂ : s₂.col.Clean)
+    (hne₁ : s₁.col.chunks ≠ []) (hne₂ : s₂.col.chunks ≠ [])
+    (hty : s₁.col.ty = s₂.col.ty) (hrows : s₁.col.rows = s₂.col.rows) :
+    ∃ df₁ p₁ df₂ p₂, s₁.toLists none = .ok df₁ ∧ packLists df₁.index df₁.asChunks true = .ok p₁ ∧
+      s₂.toLists none = .ok df₂ ∧ packLists df₂.index df₂.asChunks true = .ok p₂ ∧
+      p₁.col.rows = p₂.col.rows :=
+  listTrip_layout_independent s₁ s₂ h₁ h₂ hne₁ hne₂ hty hrows
 
 end NP.C04
